@@ -194,9 +194,13 @@ def run(ctx, obl):
     core.compare_cases(ctx, res, cases, impl, model, sig=sig, nontrivial=nontrivial)
     for v in res.violations:
         cid = core.sexp.parse(v["case"])[1] if False else None
-    res.rule = ("seeded random struct trees (1-5 fields per level over an 18-type palette, value/pointer embeds to depth 3, shadowing by name reuse, "
-                "`new`/`def=`/`new:\"-\"`/`_` markers, generics); each rendered to a package, `shoot new -type=T` run, generated NewT compiled and "
-                "called with sentinel arguments, every leaf read back by reflection. non-trivial = at least one parameter and an embed, mark or default")
+    res.rule = ("seeded random struct trees (1-5 fields per level over an 18-type palette + an opt-in wider one (arrays, **T, nested containers, anonymous "
+                "structs, channels, net/url types), value/pointer embeds to depth 3, shadowing by name reuse, `new`/`def=`/`new:\"-\"`/`_` markers, keyword and "
+                "colliding names, generics incl. non-identifier constraints and embedded generic instances with qualified type arguments, structs embedding a "
+                "pointer to themselves, embedded structs of another package (also one NAMED like the package generated into, imported under an alias; its "
+                "unexported fields spelled like own fields)); each rendered to a package; `shoot new` run as -type=T, as a multi-type run with a generic "
+                "companion type processed first, as -file= and as -type=* (selection_mode), 12% a second time over its own output (rerun); the generated NewT "
+                "compiled and called with sentinel arguments, every leaf read back by reflection. non-trivial = at least one parameter and an embed, mark or default")
     xferleg.run(ctx, res, ctx.n(20000, 200000))
     res.assumptions = ["reflection reads of unexported fields report the stored value"]
     return res
